@@ -175,6 +175,17 @@ CLAIMED = {
        'flag and scheduler timer equal at every observation point.',
   ref='6/C12', technique='Lean 4 proof (inductive invariant of the scheduler transition system over all interleavings, virtual time) + trace-replay correspondence vs real slimta.queue.Queue under a virtual clock',
   note='Partial: atomic-store / non-blocking-spawn stage; Calm environment assumption (negation witnessed, known finding).'),
+ 'C02': dict(
+  text='Lean theorems over Model/Edge.lean (SmtpSession.HAVE_DATA reply choice, WsgiEdge._enqueue_envelope + _build_http_response, '
+       'Queue.enqueue result construction, ProxyQueue.enqueue), for every list of enqueue results and every vector of write outcomes / relay '
+       'result, under the stated assumption that error objects carry 4xx/5xx replies: a 2xx SMTP reply / 2xx HTTP status implies every result is '
+       'an id, hence every write succeeded (Queue) / the relay delivered to every recipient (ProxyQueue); any failed write or relay yields a '
+       '4xx/5xx reply and HTTP status; another exception yields 421 / 500; in the event order of Queue.enqueue the reply is enabled only when no '
+       'write is pending and every one of the n writes has its result. Tied to the code by the real SmtpEdge (client socket on a socketpair), '
+       'WsgiEdge (WSGI call and pywsgi on loopback), Queue + RecipientDomainSplit over a store whose k-th write fails or is held, and ProxyQueue '
+       'over scripted relay results: all outcome vectors for n <= 3, storage contents read at the instant the reply arrives, reply absent while a '
+       'write is held.',
+  ref='6/C02', technique='Lean 4 proof (case analysis of the reply choice over arbitrary result lists; invariant of the enqueue event order) + differential correspondence vs real SmtpEdge/WsgiEdge/Queue/ProxyQueue'),
 }
 def main():
     props = [json.loads(l) for l in open(os.path.join(V, 'properties.jsonl'))]
